@@ -163,4 +163,16 @@ Proof.
   split; [apply sums_length|]. intros i Hi. apply sums_nth. exact Hi.
 Qed.
 
+(** A completely applied file is never looked at again: [Pending] decides by
+    version and [Applied = Total]; the statements of the file (and the file hash
+    stored in [Revision.Hash]) are not compared by `migrate apply`. *)
+Lemma completed_file_not_checked txfile c n (f : file) (r : rev hash) :
+  f_ckpt f = false -> r_version r = f_version f -> r_applied r = r_total r ->
+  cli_apply hash hash_eqb HS txfile c n [f] [r] [] = (CPend PNoPending, [r], [], [], []).
+Proof.
+  intros Hck Hv Hdone. unfold cli_apply, read_revisions_f. cbn [pop].
+  change (read_revisions hash [r]) with [r].
+  rewrite (pending_single_complete hash c f r Hck Hv Hdone). reflexivity.
+Qed.
+
 End Edit.
